@@ -1,6 +1,7 @@
 import PharmpyModel.Core.Sexp
 import PharmpyModel.C14.Model
 import PharmpyModel.C14.Admid
+import PharmpyModel.C14.Baseline
 open Pharmpy Pharmpy.C14
 
 /-
@@ -10,6 +11,8 @@ open Pharmpy Pharmpy.C14
       rows = ((id time amt evid ss addl ii mdv) ...)           rationals as n or n/d
     request  (admid|cmt acfg erows)   acfg = (hasCmt hasAdm doseCmt central centralDosing other|none ((cmt admid) ...)),
                                       erows = ((id evid cmt adm) ...)
+    requests (base rows) (covbase (j..) rows) (ids rows) (tv (j..) rows) (nobscount rows)
+             rows = ((id cell ...) ...), cell = rational or nan; nobscount: rows = ((id dv) ...) of the observation records
     ops: doseid doseidloop walk regular notie tad expand mdv evid obs doses nobs nobsper
 -/
 
@@ -76,7 +79,48 @@ def handleAdm (op : String) (c rs : Sexp) : Sexp :=
     if op == "admid" then Sexp.ofNats (getAdmid cfg ds) else Sexp.ofNats (getCmt cfg ds)
   | _, _ => bad
 
+def cell? : Sexp → Option (Option Rat)
+  | .atom "nan" => some none
+  | .atom s => (rat? s).map some
+  | _ => none
+
+def cellS : Option Rat → Sexp
+  | none => .atom "nan"
+  | some q => ratS q
+
+/-- (id cell ...) -/
+def crec? (lab : Nat) : Sexp → Option CRec
+  | .list (.atom i :: cs) => do some ⟨lab, ← i.toInt?, ← cs.mapM cell?⟩
+  | _ => none
+
+def crecs? (x : Sexp) : Option (List CRec) := do
+  (← x.asList?).zipIdx.mapM (fun p => crec? p.2 p.1)
+
+def nats? (x : Sexp) : Option (List Nat) := do (← x.asList?).mapM Sexp.asNat?
+
+def handleCov (req : Sexp) : Option Sexp :=
+  match req with
+  | .list [.atom "base", rs] => do
+    let ds ← crecs? rs
+    some (.list ((baselines ds).map (fun r => .list (Sexp.ofNat r.lab :: r.cells.map cellS))))
+  | .list [.atom "covbase", cols, rs] => do
+    let ds ← crecs? rs
+    some (.list ((covBaselines (← nats? cols) ds).map (fun p => .list (Sexp.ofInt p.1 :: p.2.map cellS))))
+  | .list [.atom "ids", rs] => do some (ints (getIds (← crecs? rs)))
+  | .list [.atom "tv", cols, rs] => do some (Sexp.ofNats (listTimeVarying (← nats? cols) (← crecs? rs)))
+  | .list [.atom "nobscount", rs] => do
+    let ds ← crecs? rs
+    let obs := ds.map (fun r => (r.id, cell 0 r))
+    some (.list ((nObsPerCount obs).map (fun p => .list [Sexp.ofInt p.1, Sexp.ofNat p.2])))
+  | _ => none
+
+def isCovOp (req : Sexp) : Bool :=
+  match req with
+  | .list (.atom op :: _) => ["base", "covbase", "ids", "tv", "nobscount"].contains op
+  | _ => false
+
 def handle (req : Sexp) : Sexp :=
+  if isCovOp req then (handleCov req).getD bad else
   match req with
   | .list [.atom "admid", c, rs] => handleAdm "admid" c rs
   | .list [.atom "cmt", c, rs] => handleAdm "cmt" c rs
